@@ -332,10 +332,62 @@ func (b *Backend) put(key string, data []byte, hasCRC bool, crc uint32) {
 // lock held, so it may block (scheduler, gates).
 type Interceptor func(c *Call) error
 
+// Proc is a "process": views attached to the same Proc share one crash plan and one counter of
+// mutating calls, so a crash point can be any store write of the process, whatever the store.
+type Proc struct {
+	mu        sync.Mutex
+	mutCount  int
+	crashAt   int
+	crashLand bool
+	crashed   bool
+	Log       []string // mutating calls seen: "store:op:key"
+}
+
+// NewProc creates a process
+func NewProc() *Proc { return &Proc{} }
+
+// CrashAt plans a crash at the n-th mutating call of the process (see Store.CrashAt)
+func (p *Proc) CrashAt(n int, land bool) {
+	p.mu.Lock()
+	defer p.mu.Unlock()
+	p.crashAt, p.crashLand, p.crashed, p.mutCount = n, land, false, 0
+	p.Log = nil
+}
+
+// Crashed reports whether the crash point was reached
+func (p *Proc) Crashed() bool {
+	p.mu.Lock()
+	defer p.mu.Unlock()
+	return p.crashed
+}
+
+// MutCount returns the number of mutating calls seen since the last CrashAt/Reset
+func (p *Proc) MutCount() int {
+	p.mu.Lock()
+	defer p.mu.Unlock()
+	return p.mutCount
+}
+
+// MutLog returns a copy of the mutating call log
+func (p *Proc) MutLog() []string {
+	p.mu.Lock()
+	defer p.mu.Unlock()
+	return append([]string(nil), p.Log...)
+}
+
+// Reset clears plan, crashed flag and counters
+func (p *Proc) Reset() {
+	p.mu.Lock()
+	defer p.mu.Unlock()
+	p.crashAt, p.crashLand, p.crashed, p.mutCount = 0, false, false, 0
+	p.Log = nil
+}
+
 // Store is one view (actor) of a backend and implements storage.Store.
 type Store struct {
 	b     *Backend
 	actor string
+	proc  *Proc
 
 	mu        sync.Mutex
 	before    []Interceptor
@@ -353,6 +405,12 @@ var _ storage.Store = &Store{}
 // View creates a new view of the backend for the named actor
 func (b *Backend) View(actor string) *Store {
 	return &Store{b: b, actor: actor}
+}
+
+// Attach makes the view part of a process (shared crash plan)
+func (s *Store) Attach(p *Proc) *Store {
+	s.proc = p
+	return s
 }
 
 // Backend returns the underlying bucket
@@ -399,6 +457,9 @@ func (s *Store) CrashAt(n int, land bool) {
 
 // Crashed reports whether the crash point was reached
 func (s *Store) Crashed() bool {
+	if s.proc != nil && s.proc.Crashed() {
+		return true
+	}
 	s.mu.Lock()
 	defer s.mu.Unlock()
 	return s.crashed
@@ -478,6 +539,9 @@ func (s *Store) enter(c *Call) (land bool, crashAfter bool, err error) {
 	c.Actor = s.actor
 	c.Store = s.b.Name
 
+	if s.proc != nil && s.proc.Crashed() {
+		return false, false, ErrCrashed
+	}
 	s.mu.Lock()
 	if s.crashed {
 		s.mu.Unlock()
@@ -512,6 +576,26 @@ func (s *Store) enter(c *Call) (land bool, crashAfter bool, err error) {
 				return false, false, f.Err
 			}
 			return false, false, ErrInjected
+		}
+	}
+	if s.proc != nil {
+		p := s.proc
+		p.mu.Lock()
+		defer p.mu.Unlock()
+		if p.crashed {
+			return false, false, ErrCrashed
+		}
+		if Mutating(c.Op) {
+			p.mutCount++
+			c.MutIdx = p.mutCount
+			p.Log = append(p.Log, s.b.Name+":"+c.Op+":"+c.Key)
+			if p.crashAt > 0 && p.mutCount == p.crashAt {
+				p.crashed = true
+				if p.crashLand {
+					return true, true, nil
+				}
+				return false, false, ErrCrashed
+			}
 		}
 	}
 	if Mutating(c.Op) {
